@@ -237,8 +237,14 @@ def run_lines(exe, sub, lines, shards=NPROC, timeout=3000, env=None):
     e = dict(os.environ)
     if env: e.update(env)
     procs = []
+    def big_stack():
+        # the extracted model keeps domains as lists: auxiliary variables with computed bounds can have
+        # 10^5..10^6 values (a product of large constants), which needs more than the default 8 MB stack
+        import resource
+        soft, hard = resource.getrlimit(resource.RLIMIT_STACK)
+        resource.setrlimit(resource.RLIMIT_STACK, (hard, hard))
     for ch in chunks:
-        p = subprocess.Popen([exe, sub], stdin=subprocess.PIPE, stdout=subprocess.PIPE, stderr=subprocess.PIPE, text=True, env=e)
+        p = subprocess.Popen([exe, sub], stdin=subprocess.PIPE, stdout=subprocess.PIPE, stderr=subprocess.PIPE, text=True, env=e, preexec_fn=big_stack)
         procs.append(p)
     import threading
     outs = [None] * shards
